@@ -27,7 +27,6 @@ import io
 import os
 
 from mitmproxy import exceptions
-from mitmproxy import flow as mflow
 from mitmproxy import version
 from mitmproxy.io import FlowReader
 from mitmproxy.io import FlowWriter
@@ -198,7 +197,7 @@ def phase_dumps(ctx, rec):
                 ctx.violation("unsupported-dump-not-rejected", {"dump": name, "flows": len(flows), "exc": short(repr(err))})
             elif "0, 10" not in str(err):
                 ctx.violation("unsupported-dump-error-lacks-version", {"dump": name, "msg": str(err)})
-            ctx.case(("dump", name, "rejected"), True, {"case": "dump", "dump": name, "outcome": str(err)[:120]})
+            ctx.case(("dump", name, "rejected"), True, {"case": "dump", "dump": name, "outcome": str(err)[:120]} if ctx.worker == 0 else None)
             continue
         if tripped:
             ctx.violation("migration-does-not-terminate", {"dump": name, "steps": str(err)}, None)
@@ -210,7 +209,8 @@ def phase_dumps(ctx, rec):
         else:
             for i, f in enumerate(flows):
                 check_valid_and_resaves(ctx, f, f"{name}[{i}]", records[i])
-        ctx.case(("dump", name, tuple(versions), len(records)), True, {"case": "dump", "dump": name, "versions": versions, "records": len(records), "loaded": len(flows)})
+        ctx.case(("dump", name, tuple(versions), len(records)), True,
+                 {"case": "dump", "dump": name, "versions": versions, "records": len(records), "loaded": len(flows)} if name == "dumpfile-7-websocket.mitm" else None)
     ctx.extra["converters_entered_by_shipped_dumps"] = sorted(str(k) for k in rec.entered)
     ctx.extra["converters_never_entered"] = sorted(str(k) for k in rec.orig if k not in rec.entered)
 
